@@ -53,6 +53,42 @@ func get() *region {
 	return r
 }
 
+var free []*region // regions handed out by Place and given back by their release function
+
+// Place is AtEnd / AtStart for concurrent use: the returned slice stays untouched until release is called.
+func Place(b []byte, atEnd bool) (placed []byte, release func()) {
+	if len(b) == 0 || len(b) > page {
+		return append([]byte(nil), b...), func() {}
+	}
+	mu.Lock()
+	var r *region
+	if n := len(free); n > 0 {
+		r, free = free[n-1], free[:n-1]
+	}
+	usable := ok
+	mu.Unlock()
+	if r == nil && usable {
+		mem, err := syscall.Mmap(-1, 0, 3*page, syscall.PROT_READ|syscall.PROT_WRITE, syscall.MAP_ANON|syscall.MAP_PRIVATE)
+		if err == nil && syscall.Mprotect(mem[:page], syscall.PROT_NONE) == nil && syscall.Mprotect(mem[2*page:], syscall.PROT_NONE) == nil {
+			r = &region{mem: mem}
+		}
+	}
+	if r == nil {
+		return append([]byte(nil), b...), func() {}
+	}
+	if atEnd {
+		placed = r.mem[2*page-len(b) : 2*page : 2*page]
+	} else {
+		placed = r.mem[page : page+len(b) : page+len(b)]
+	}
+	copy(placed, b)
+	return placed, func() {
+		mu.Lock()
+		free = append(free, r)
+		mu.Unlock()
+	}
+}
+
 // Available reports whether guarded placement works on this system.
 func Available() bool { return get() != nil }
 
